@@ -9,14 +9,17 @@ MODNAME = "c13"
 RULE = ("One case = one domain [a,b] (finite doubles, magnitudes 1e-6..1e9 or 0, span >= 1.5e-6 of the magnitude, either "
         "orientation; random, near-equal ends, integer and decimal-looking ends, ends on multiples of the step, spans at powers of "
         "ten and at the step thresholds) and one count m in 1..100 or the default; ticks() and tickFormat() of a LinearScale. "
-        "Non-trivial = at least two ticks; distinct by input.")
+        "Non-trivial = at least two ticks AND (the step is 2 or 5 times a power of ten, or the domain is reversed, or an end "
+        "is negative, or the labels have decimals); distinct by input.")
 EXPLANATION = ("Theorems are about coq/Scale/Ticks.v for ALL rational domains and ALL counts m >= 1; the tie checks that "
                "LinearScale.ticks/tickFormat return the same number of ticks, the same values (tolerance min(1e-3*step, 1e-9*magnitude): "
-               "the implementation accumulates the step in doubles) and texts that denote exactly the model's decimals. Ambiguity band "
-               "(counted, not a mismatch): err within 1e-9 of a threshold 0.15/0.35/0.75, or a domain end within 1e-9*max(1,|x/step|) "
-               "steps of a multiple of the step.")
+               "the implementation accumulates the step in doubles) and texts that denote exactly the model's decimals. Ambiguity band: "
+               "where err is within 1e-9 of a threshold 0.15/0.35/0.75 the doubles may take the other step, and where a domain end is "
+               "within 1e-9*max(1,|x/step|) steps of a multiple of the step the doubles' ceil/floor may fall on the other side, i.e. the "
+               "first/last tick is present or absent.  coq/Scale/Band.v (ticks_alts) enumerates the finitely many tick lists these "
+               "decisions admit; a case is counted `ambiguous` only if the implementation's ticks AND labels equal one of them, "
+               "anything else is a mismatch.")
 EPS = F(1, 10 ** 9)
-THRESHOLDS = (F(15, 100), F(35, 100), F(75, 100))
 
 
 def _q(x):
@@ -39,8 +42,9 @@ def _case(a, b, m, kind="rand"):
 
 def rebuild(c):
     py = c["py"]
-    return {"kind": c.get("kind", "rand"), "py": py,
-            "model": [[230] + _q(py["a"]) + _q(py["b"]) + [10 if py["m"] is None else py["m"]]]}
+    args = _q(py["a"]) + _q(py["b"]) + [10 if py["m"] is None else py["m"]]
+    # 230: the exact model; 232: the admissible outcomes inside the ambiguity band (tie only)
+    return {"kind": c.get("kind", "rand"), "py": py, "model": [[230] + args, [232] + args]}
 
 
 def _mag(rng, lo=-6, hi=9):
@@ -131,16 +135,27 @@ def decode(m):
     return step, err, n, ticks, fm
 
 
-def in_band(a, b, step, err):
-    for t in THRESHOLDS:
-        if abs(err - t) <= EPS * t:
-            return "err %.12g at threshold %s" % (float(err), t)
-    for x in (a, b):
-        q = x / step
-        fr = q - math.floor(q)
-        if min(fr, 1 - fr) <= EPS * max(1, abs(q)):
-            return "end %r within the band of a multiple of the step %s" % (float(x), step)
-    return None
+def decode_alts(m):
+    """model output of command 232 -> [(step, decimals, ticks, fmts)]"""
+    k = 1
+    n_alt = m[k]
+    k += 1
+    alts = []
+    for _ in range(n_alt):
+        step = F(m[k], m[k + 1])
+        n = m[k + 2]
+        k += 3
+        cnt = m[k]
+        k += 1
+        ticks = []
+        for _ in range(cnt):
+            ticks.append(F(m[k], m[k + 1]))
+            k += 2
+        cnt2 = m[k]
+        fm = list(m[k + 1:k + 1 + cnt2])
+        k += 1 + cnt2
+        alts.append((step, n, ticks, fm))
+    return alts
 
 
 def parse_text(s):
@@ -149,6 +164,25 @@ def parse_text(s):
     if not re.fullmatch(r"-?\d+(\.\d+)?", s):
         return None, None
     return F(s), (len(s.split(".")[1]) if "." in s else 0)
+
+
+def _diff(io, a, b, step, n, ticks, fm):
+    """None if the implementation's ticks and labels are this outcome, else why not"""
+    if len(ticks) != len(io["ticks"]):
+        return "%d ticks, the model has %d (step %s)" % (len(io["ticks"]), len(ticks), step)
+    tol = min(step / 1000, EPS * max(abs(a), abs(b), step)) if step else F(0)
+    for i, (v, t) in enumerate(zip(io["ticks"], ticks)):
+        if abs(F(v) - t) > tol:
+            return "tick %d is %r, the model has %s (step %s)" % (i, v, float(t), step)
+    for i, (s, z) in enumerate(zip(io["texts"], fm)):
+        val, dec = parse_text(s)
+        if val is None:
+            return "text %r is not a plain decimal" % s
+        if dec != n:
+            return "text %r has %d decimals, the model %d" % (s, dec, n)
+        if val != F(z, 10 ** n):
+            return "text %r denotes %s, the model's label denotes %s" % (s, val, F(z, 10 ** n))
+    return None
 
 
 def compare(case, io, mo):
@@ -160,28 +194,16 @@ def compare(case, io, mo):
         return "model failed (out of fuel?)"
     step, err, n, ticks, fm = decode(m)
     a, b = F(py["a"]), F(py["b"])
-    why = None
-    if len(ticks) != len(io["ticks"]):
-        why = "%d ticks, the model has %d (step %s)" % (len(io["ticks"]), len(ticks), step)
-    else:
-        tol = min(step / 1000, EPS * max(abs(a), abs(b), step))
-        for i, (v, t) in enumerate(zip(io["ticks"], ticks)):
-            if abs(F(v) - t) > tol:
-                why = "tick %d is %r, the model has %s (step %s)" % (i, v, float(t), step)
-                break
-    if why:
-        if in_band(a, b, step, err):
-            raise core.Ambiguous()
-        return why
-    for i, (s, z) in enumerate(zip(io["texts"], fm)):
-        val, dec = parse_text(s)
-        if val is None:
-            return "text %r is not a plain decimal" % s
-        if dec != n:
-            return "text %r has %d decimals, the model %d" % (s, dec, n)
-        if val != F(z, 10 ** n):
-            return "text %r denotes %s, the model's label denotes %s" % (s, val, F(z, 10 ** n))
-    return None
+    why = _diff(io, a, b, step, n, ticks, fm)
+    if why is None:
+        return None
+    # not the exact outcome: it must be one of the outcomes the ambiguity band admits
+    ma = mo[1] if len(mo) > 1 else None
+    if ma is not None and ma[0] == 1:
+        for st, nn, tk, ff in decode_alts(ma):
+            if _diff(io, a, b, st, nn, tk, ff) is None:
+                raise core.Ambiguous()
+    return why
 
 
 def snap_step(d):
@@ -241,7 +263,14 @@ def oracle(case, io):
 
 
 def nontrivial(case, io):
-    return isinstance(io, dict) and len(io.get("ticks", [])) >= 2
+    if not isinstance(io, dict) or len(io.get("ticks", [])) < 2:
+        return False
+    py = case["py"]
+    d = F(io["ticks"][1]) - F(io["ticks"][0])
+    st = snap_step(d)
+    two_or_five = st is not None and (st / F(10) ** math.floor(math.log10(float(st)) + 1e-9)) != 1
+    return (two_or_five or py["a"] > py["b"] or min(py["a"], py["b"]) < 0
+            or any("." in t for t in io["texts"]))
 
 
 def search(rng, tier, mism_cases):
